@@ -23,7 +23,7 @@ CONFIG = {
              'the failed build (result, tree, invocations); evaluations = injected runs; '
              'distinct_nontrivial = distinct (program shape, prior step kinds, crash label class, '
              'had-cache?, reused-before-crash?)'),
-    'gates': ['crash_runs', 'cachewrite_fault_runs', 'crash_after_reuse', 'crash_with_backup'],
+    'gates': ['swap_cases', 'swap_cases_rolled_back', 'crash_runs', 'cachewrite_fault_runs', 'crash_after_reuse', 'crash_with_backup'],
 }
 
 NEXT_KINDS = {'result', 'tree', 'extra_invocation', 'query', 'reused_output_rewritten', 'missing_invocation'}
@@ -31,6 +31,9 @@ ROLLBACK_KINDS = {'rollback_tree', 'exception_identity_root', 'tmp_leftover', 'r
 
 
 def run_shard(sh):
+    from .swapcases import run_swap_cases
+    run_swap_cases(sh, lambda d: d['kind'] in ROLLBACK_KINDS | NEXT_KINDS | {'foreign_changed', 'foreign_event'},
+                   'C02', crash_points=True, nested_cache=sh.idx % 2 == 1)
     rng = random.Random((sh.seed * 1000003 + sh.idx) & 0xffffffff)
     maxk = 30 if sh.tier == 'quick' else 200
     while sh.time_left() > 0:
